@@ -19,10 +19,10 @@ var properties = map[string]*propDef{
 	"C06": {Rules: []string{}},
 	"C07": {Rules: []string{"TAB-KEYSIG", "TAB-DYNAMICS", "TAB-DEFAULTS"}},
 	"C08": {Rules: []string{}},
-	"C09": {Rules: []string{"EXIT", "EOFPRED", "NILOK", "VALIDATE", "REJECT", "MUST", "RECUR", "ERRDROP", "FLAGS", "NARROW", "LOOKUP"}},
+	"C09": {Rules: []string{"EXIT", "EOFPRED", "NILOK", "VALIDATE", "REJECT", "MUST", "RECUR", "ERRDROP", "FLAGS", "NARROW", "LOOKUP", "DEBUGOUT"}},
 	"C10": {Rules: []string{"TAB-NOTATION", "TAB-REGEX", "TAB-DYNAMICS"}},
 	"C11": {Rules: []string{}},
-	"C12": {Rules: []string{}},
+	"C12": {Rules: []string{"MAPORDER", "CONC", "NONDET", "IOLAYER", "DEBUGOUT"}},
 	"C13": {Rules: []string{"TAB-KEYSIG"}},
 	"C14": {Rules: []string{"TAB-CIRCLE"}},
 	"C15": {Rules: []string{"TAB-DEGREE", "TAB-NOTATION", "TAB-NOTE"}},
